@@ -7,8 +7,8 @@
 
   model output: the prologue model (`UVerif.Exc.*.prologue`) decides throw / early value / fall-through for both builds;
   where both builds fall through into the shared arithmetic the throwing build's value is predicted to be the quiet
-  build's value; where only the throwing build falls through (the quiet build returned early: cfloat quiet-NaN operands,
-  D22) the shared arithmetic runs on operands no family model covers and the value is taken over from the transcript.
+  build's value. (A branch in which only the throwing build falls through would take the value over from the transcript;
+  since the repair of D22, commit 896b71f, the prologue models contain no such branch.)
   spec: `UVerif.Exc.specCheck` on the two observed outcomes.
 -/
 import UVerif.Driver.Core
@@ -25,7 +25,7 @@ private def stripPrefix (pre s : String) : Option String :=
 
 /-- model text of the two outcomes and the two stderr flags: `runQ` / `runT` of the prologue model on the value of the
     shared arithmetic, which is read off the transcript — from the quiet build where the quiet build reaches the shared
-    arithmetic, otherwise (quiet-only early return, D22) from the throwing build. -/
+    arithmetic, otherwise (a quiet-only early return; none is left in the model since fix 896b71f) from the throwing build. -/
 private def modelText (p : Prologue String) (q t : Obs) : String :=
   let src := if p.qEarly.isNone && !p.qTrap then q else t
   let core := match src with
@@ -77,8 +77,7 @@ def excCase (fam : String) (cfg : List String) (op : Op) (as bs : String) : Exce
     let c : CFloatSpec.Cfg := { n := n, es := es, sub := fl.getD 0 '0' == '1', sup := fl.getD 1 '0' == '1' }
     let (a, b) ← natOps
     let cls :=
-      if CFloatSpec.qnanOperandClass c op a b then "exc.cfloat.qnan_operand"
-      else if CFloatSpec.divQNaNNumeratorClass c op a b then "exc.cfloat.div.qnan_numerator"
+      if CFloatSpec.divQNaNNumeratorClass c op a b then "exc.cfloat.div.qnan_numerator"
       else ""
     return { p := hexPrologue (CFloat.prologue c op a b), errCond := CFloatSpec.err c op a b,
              applies := CFloatSpec.kindApplies c op a b, stderrSignal := false, cls := cls }
